@@ -90,6 +90,51 @@ def rebuild_tools(log):
     return steps
 
 
+def build_zoo(log):
+    """Run the working tree's parquetgen on every zoo struct and lay out harness/gen/<pkg>.
+    Returns dict pkg -> 'ok' | 'gen-failed: ..' | 'compile-failed: ..'."""
+    H = os.path.join(VERIF, "harness")
+    pg = os.path.join(BIN, "parquetgen")
+    if os.path.exists(pg):
+        os.remove(pg)
+    sh(["go", "build", "-o", pg, "./cmd/parquetgen"], cwd=REPO, env=GOENV)
+    gen = os.path.join(H, "gen")
+    shutil.rmtree(gen, ignore_errors=True)
+    os.makedirs(gen)
+    shutil.copy(os.path.join(REPO, "go.sum"), os.path.join(H, "go.sum"))
+    tmpl = open(os.path.join(H, "zoo", "adapter.go.tmpl")).read()
+    status = {}
+    for line in open(os.path.join(H, "zoo", "ZOO.txt")):
+        if not line.strip():
+            continue
+        pkg, typ = line.split()
+        d = os.path.join(gen, pkg)
+        os.makedirs(d)
+        shutil.copy(os.path.join(H, "zoo", pkg, "types.go"), os.path.join(d, "types.go"))
+        p = sh([pg, "-input", "types.go", "-type", typ, "-package", pkg, "-output", "parquet.go"], cwd=d, check=False)
+        if p.returncode != 0 or not os.path.exists(os.path.join(d, "parquet.go")):
+            status[pkg] = "gen-failed: " + p.stdout.strip()[-300:]
+            shutil.rmtree(d)
+            continue
+        open(os.path.join(d, "adapter.go"), "w").write(tmpl.replace("PKG", pkg).replace("TYPE", typ))
+        p = sh(["go", "build", "-tags", "verif", "./gen/" + pkg], cwd=H, env=GOENV, check=False)
+        if p.returncode != 0:
+            status[pkg] = "compile-failed: " + p.stdout.strip()[-600:]
+            shutil.rmtree(d)
+            continue
+        status[pkg] = "ok"
+    with open(os.path.join(H, "cmd", "pqh", "zoo_gen.go"), "w") as f:
+        f.write("// Code generated by tools/orch (zoo registry). DO NOT EDIT.\npackage main\n\nimport (\n")
+        for pkg, st in sorted(status.items()):
+            if st == "ok":
+                f.write('\t_ "pqh/gen/%s"\n' % pkg)
+        f.write(")\n")
+    for pkg, st in status.items():
+        if st != "ok":
+            log("zoo member %s: %s" % (pkg, st))
+    return status
+
+
 def build_pqh(log):
     out = os.path.join(BIN, "pqh")
     if os.path.exists(out):
